@@ -4,6 +4,7 @@ import (
 	"fmt"
 	"os"
 	"path/filepath"
+	"regexp"
 	"strconv"
 	"strings"
 	"unicode"
@@ -589,6 +590,9 @@ type FuncSpec struct {
 	AfterWait []*Clause      // fork/join: assumed after sync.WaitGroup.Wait returns
 	GhostInits []GhostInit
 	GhostSets  []GhostSet
+	Holds       []HoldClause // goroutine: thread-local ghost permissions it starts with (transferred from the spawner)
+	CloseGuards [][2]string  // `closeguard ch wg`: channel variable ch is closed only after wg.Wait()
+	NeverClosed []string     // `neverclosed ch`: channel variable ch is never closed
 	OnSend     []*Clause // obligations at every channel send of the function (`value` is what is sent)
 	Preserves []*Clause // closure contracts: requires + ensures + carried across extern calls that take the closure as a callback
 	Chooses   []ChooseClause // witnesses of existential postconditions of callees
@@ -599,6 +603,14 @@ type FuncSpec struct {
 	CallGhost   map[string]map[string]Expr // callee short name -> ghost parameter -> expression in the caller
 	Claims   []*Clause // for `prove` blocks: stand-alone lemmas to be proved
 	Assumes  []*Clause // hypotheses of a `prove` block
+}
+
+// HoldClause: `holds wgtok(<expr>) <n>` | `holds wgst(<expr>) 2` | `holds mayclose(<expr>) 1`
+type HoldClause struct {
+	Fn        string
+	E         Expr
+	N         int
+	Src, Line string
 }
 
 // GhostInit: `ghostinit <specfn> <local> = <expr> after <callee>` fixes the
@@ -684,7 +696,7 @@ func newSpecSet() *SpecSet {
 var clauseKeywords = map[string]bool{"func": true, "requires": true, "ensures": true, "modifies": true,
 	"loop": true, "inline": true, "props": true, "arith": true, "pure": true, "function": true, "writes": true,
 	"type": true, "spec": true, "lemma": true, "global": true, "trusted": true, "ghost": true, "allocs": true,
-	"skip": true, "end": true, "uses": true, "ghostvar": true, "prove": true, "claim": true, "given": true, "ghostparam": true, "callghost": true, "access": true, "callreq": true, "afterwait": true, "lockinv": true, "guarantee": true, "assumes": true, "choose": true, "ghostinit": true, "preserves": true, "ghostset": true, "onsend": true}
+	"skip": true, "end": true, "uses": true, "ghostvar": true, "prove": true, "claim": true, "given": true, "ghostparam": true, "callghost": true, "access": true, "callreq": true, "afterwait": true, "lockinv": true, "guarantee": true, "assumes": true, "choose": true, "ghostinit": true, "preserves": true, "ghostset": true, "onsend": true, "holds": true, "closeguard": true, "neverclosed": true}
 
 // specLines extracts the //@ payload lines of a Go file, or all lines of a
 // .spec file.
@@ -1045,6 +1057,36 @@ func (ss *SpecSet) parseFile(path, pkg string) error {
 					return fail(err)
 				}
 				cur.OnSend = append(cur.OnSend, &Clause{Kind: "onsend", Src: rest[9:], E: e, Line: where})
+			}
+		case "holds":
+			{
+				// holds wgtok(<expr>) <n>
+				m := regexp.MustCompile(`^(wgtok|wgst|mayclose)\((.*)\)\s+([0-9]+)$`).FindStringSubmatch(strings.TrimSpace(rest))
+				if m == nil {
+					return fail(fmt.Errorf("holds wgtok|wgst|mayclose(<expr>) <n>"))
+				}
+				ex, err := parseExpr(m[2])
+				if err != nil {
+					return fail(err)
+				}
+				n, _ := strconv.Atoi(m[3])
+				cur.Holds = append(cur.Holds, HoldClause{Fn: m[1], E: ex, N: n, Src: strings.TrimSpace(rest), Line: where})
+			}
+		case "closeguard":
+			{
+				f := strings.Fields(rest)
+				if len(f) != 2 {
+					return fail(fmt.Errorf("closeguard <channel variable> <WaitGroup variable>"))
+				}
+				cur.CloseGuards = append(cur.CloseGuards, [2]string{f[0], f[1]})
+			}
+		case "neverclosed":
+			{
+				f := strings.Fields(rest)
+				if len(f) != 1 {
+					return fail(fmt.Errorf("neverclosed <channel variable>"))
+				}
+				cur.NeverClosed = append(cur.NeverClosed, f[0])
 			}
 		case "ghostset":
 			{
